@@ -101,6 +101,7 @@ package trie
 //@   ensures @C15 result ==> prunedOnly(H0, V0, H1, A0, t, B, O, N)
 // ... and the pruning goes as far as it can: it stops at the deepest node of the path that keeps another child (SI; -1: none)
 //@   witness SI
+//@   map-witness
 //@   ensures @C15 result ==> prunedUpTo(H0, V0, H1, t, B, O, N, SI)
 //@   ensures @C15 tree(H0, V0, A0, t) ==> tree(H1, V1, alloc, t)
 //@   ensures alloc == A0 && closed(H1, V1, alloc)
@@ -144,7 +145,15 @@ package trie
 //@   requires t != nil
 //@   requires forall x ref, k int :: has(x.m, k) ==> x.m[k] != nil
 //@   modifies-heap github.com/fluhus/biostuff/trie.forEachStep.t github.com/fluhus/biostuff/trie.forEachStep.k github.com/fluhus/biostuff/trie.forEachStep.i
+// functional (C15, "nothing else"): every reported sequence is non-empty, can be followed from the root and ends in a node
+// without children (leafSeq, specs/35trie.spec) - it is a final sequence of the trie, with its content at the time of the call
+//@   let H := heaphas(t.m)
+//@   let V := heapval(t.m)
+//@   ensures @C15 forall k int :: {len(Y[k])} 0 <= k && k < len(Y) ==> leafSeq(H, V, t, rawarr(Y[k]), offset(Y[k]), len(Y[k]))
 //@   loop 1
+//@     invariant @C15 forall k int :: {len(Y[k])} 0 <= k && k < len(Y) ==> leafSeq(H, V, t, rawarr(Y[k]), offset(Y[k]), len(Y[k]))
+//@     invariant @C15 mark(offset(cur)) && mark(len(cur)) && forall j int :: {stack[j]} 0 <= j && j < len(stack) ==>
+//@                 chain(H, V, t, rawarr(cur), offset(cur), j) && walk(H, V, t, rawarr(cur), offset(cur), j) == stack[j].t
 //@     invariant len(stack) >= 1 && len(cur) == len(stack) - 1 && !stopped
 //@     invariant forall j int :: 0 <= j && j < len(stack) ==> stack[j] != nil && stack[j].t != nil &&
 //@                 len(stack[j].k) == len(stack[j].t.m) && 0 <= stack[j].i && stack[j].i <= len(stack[j].k) &&
